@@ -289,7 +289,27 @@ def render_sections(rng, defs, lens, first):
     return out
 
 
-def render_cmap(rng, defs, lens, first, plain_meta=False):
+def render_secs_text(rng, secs):
+    """the sections of a given section list (see sections_of_defs) in the free style of render_sections"""
+    names = {'cs': 'codespacerange', 'bfchar': 'bfchar', 'bfrange': 'bfrange'}
+    out = ''
+    for k, ls in secs:
+        n = len(ls) if rng.random() < 0.9 else rng.randint(0, 200)
+        out += '%d%sbegin%s%s' % (n, sp1(rng), names[k], ms1(rng))
+        for x in ls:
+            if k == 'cs':
+                out += sp0(rng) + '<' + hexs(rng, code_bytes(x[2], x[0])) + '>' + sp0(rng) + '<' + hexs(rng, code_bytes(x[2], x[1])) + '>' + ms1(rng)
+            elif k == 'bfchar':
+                out += render_def(rng, ('char', x[1], x[0], x[2]))
+            elif len(x[3]) == 1:
+                out += render_def(rng, ('incr', x[2], x[0], x[1], x[3][0]))
+            else:
+                out += render_def(rng, ('array', x[2], x[0], x[1], x[3]))
+        out += 'end' + names[k] + ms1(rng)
+    return out
+
+
+def render_cmap(rng, defs, lens, first, plain_meta=False, secs=None):
     pre = rng.choice(['', '', '\n', '%!PS-Adobe-3.0 Resource-CMap\n%%DocumentNeededResources: ProcSet (CIDInit)\n\n', ' \t\r\n'])
     head = pre + '/CIDInit' + sp0(rng) + rng.choice(['/ProcSet', '/ProcSet', '/Procset']) + sp1(rng) + 'findresource' + sp1(rng) + 'begin' + ms1(rng)
     head += str(rng.choice([12, 12, 1, 100])) + sp1(rng) + 'dict' + sp1(rng) + 'begin' + ms1(rng) + 'begincmap' + ms1(rng)
@@ -302,7 +322,7 @@ def render_cmap(rng, defs, lens, first, plain_meta=False):
     metas = rng.sample(pool, k)
     if rng.random() < 0.1 and len(metas) < 4:
         metas.append(rng.choice([nm, ty]))
-    body = render_sections(rng, defs, lens, first)
+    body = render_sections(rng, defs, lens, first) if secs is None else render_secs_text(rng, secs)
     tail = 'endcmap' + ms1(rng) + 'CMapName' + sp1(rng) + 'currentdict' + sp1(rng) + '/CMap' + sp1(rng) + 'defineresource' + sp1(rng) + 'pop' + ms1(rng)
     tail += 'end' + ms1(rng) + 'end' + rng.choice(['', '\n', '\n\n%%EndResource\n%%EOF\n', ' trailing garbage is ignored', '\r\n'])
     return (head + ''.join(metas) + body + tail).encode('latin-1')
@@ -352,6 +372,103 @@ def sections_of_defs(rng, defs, lens, first):
     if cs_at is not None and cs_at >= len(groups):
         secs.append(codespace())
     return secs
+
+
+# ---- sections of more than 100 entries --------------------------------------------------------------------------------
+# Adobe TN 5014 recommends that a producer writes at most 100 entries per section; the grammar has no such limit (many1),
+# ISO 32000-1 9.10.3 states none, real producers exceed it, and C15_parse_render holds for sections of any length.
+BIG_SIZES = [101, 150, 250, 1000]
+
+
+def gen_big_table(rng, kind, n):
+    """a small random table (gen_table) plus n further definitions of ONE kind in a row: kind = 'bfchar' (single codes),
+    'bfrange' (incrementing and array ranges of 1-3 codes), 'cs' (no further definitions: the n entries are codespace
+    ranges).  Returns (defs, lens, first, (start, n) = where the run of n definitions sits in defs)."""
+    while True:
+        defs, lens, first = gen_table(rng)
+        wide = [ln for ln in lens if ln >= 2]
+        if wide:
+            break
+    defs = defs[:rng.choice([0, 0, 1, 3, len(defs)])]
+    if kind == 'cs':
+        return defs, lens, first, (len(defs), 0)
+    ln = rng.choice(wide)
+    f0, f1 = first[ln]
+    lo_c, hi_c = f0 << (8 * (ln - 1)), ((f1 + 1) << (8 * (ln - 1))) - 1
+    span = hi_c - lo_c + 1
+    pos = rng.randrange(span)
+    run = []
+    for _ in range(n):
+        if kind == 'bfchar':
+            run.append(('char', ln, lo_c + pos % span, rand_units(rng)))
+            pos += rng.choice([1, 1, 1, 2, 3, 7])
+        else:
+            size = rng.choice([1, 1, 2, 3])
+            c = lo_c + pos % span
+            hi = min(hi_c, c + size - 1)
+            if rng.random() < 0.25:
+                run.append(('array', ln, c, hi, [rand_units(rng) for _ in range(hi - c + 1)]))
+            else:
+                run.append(('incr', ln, c, hi, rand_units(rng, room=hi - c)))
+            pos += size + rng.choice([0, 0, 1, 5])
+    at = rng.randint(0, len(defs))
+    return defs[:at] + run + defs[at:], lens, first, (at, n)
+
+
+def sections_chunked(rng, defs, lens, first, per, big_cs=0):
+    """section list in which consecutive definitions of one kind share a section of at most `per` entries (per = entries per
+    section, the producer's choice); big_cs > 0: the codespace section holds that many ranges (sub-ranges of the code space,
+    in `per`-sized sections as well)"""
+    secs = []
+    def put(kind, line):
+        if secs and secs[-1][0] == kind and len(secs[-1][1]) < per:
+            secs[-1][1].append(line)
+        else:
+            secs.append((kind, [line]))
+    for d in defs:
+        if d[0] == 'char':
+            put('bfchar', (d[2], d[1], list(d[3])))
+        elif d[0] == 'incr':
+            put('bfrange', (d[2], d[3], d[1], [list(d[4])]))
+        else:
+            put('bfrange', (d[2], d[3], d[1], [list(u) for u in d[4]]))
+    cs = []
+    if big_cs:
+        for _ in range(big_cs):
+            ln = rng.choice(lens)
+            f0, f1 = first[ln]
+            lo_c, hi_c = f0 << (8 * (ln - 1)), ((f1 + 1) << (8 * (ln - 1))) - 1
+            a = rng.randint(lo_c, hi_c)
+            cs.append((a, min(hi_c, a + rng.choice([0, 1, 15, 255, 65535])), ln))
+    else:
+        cs = [((first[ln][0] << (8 * (ln - 1))), (((first[ln][1] + 1) << (8 * (ln - 1))) - 1), ln) for ln in lens]
+    cs_secs = [('cs', cs[i:i + per]) for i in range(0, len(cs), per)]
+    at = rng.choice([0, 0, len(secs), rng.randint(0, len(secs))])
+    return secs[:at] + cs_secs + secs[at:]
+
+
+def lay_layout_big(rng, secs):
+    """a layout for long sections: full line layouts for the first lines of every section (up to a random number that
+    often lies beyond 100), the renderer's defaults after that"""
+    y = lay_layout(rng, [(k, ls[:rng.choice([0, 3, 20, 105, 130])]) for k, ls in secs])
+    return y
+
+
+def big_plan(rng, tier):
+    """[(kind, n, per)]: every kind of section with 101, 150, 250, 1000 entries in ONE section, and the same tables chunked
+    at 100 (TN 5014), 101 and at random"""
+    plan = []
+    for kind in ('bfchar', 'bfrange', 'cs'):
+        for n in BIG_SIZES:
+            plan.append((kind, n, n))
+        plan.append((kind, rng.choice([150, 250]), 100))
+        plan.append((kind, rng.choice([150, 250, 303]), 101))
+        plan.append((kind, rng.randint(102, 400), rng.randint(101, 400)))
+    if tier != 'quick':
+        for _ in range(120):
+            n = rng.choice(BIG_SIZES + [rng.randint(101, 1200)])
+            plan.append((rng.choice(['bfchar', 'bfrange', 'cs']), n, rng.choice([n, n, 100, 101, rng.randint(90, 1200)])))
+    return plan
 
 
 def lay_blank(rng):
@@ -609,7 +726,17 @@ def sx_units(u):
 
 
 def make_case(rng, defs, lens, first, stream, expect=True, extra_texts=(), extra_probes=(), head='case', tail=()):
-    codes = mapped_codes(defs)
+    if len(defs) > 60:
+        # a long table: probe the first and last definitions, those around the 100th / 101st, and a random sample
+        # (the expectation is still computed from the WHOLE table)
+        idx = set(range(3)) | set(range(len(defs) - 3, len(defs))) | set(rng.sample(range(len(defs)), 40))
+        for k in range(len(defs)):
+            if k % 50 in (0, 1, 49) or 97 <= k <= 103:
+                idx.add(k)
+        idx = sorted(idx)[:90]
+        codes = mapped_codes([defs[k] for k in idx])
+    else:
+        codes = mapped_codes(defs)
     # also the neighbours of every boundary, mapped or not
     near = []
     for (ln, c) in codes:
@@ -710,10 +837,18 @@ def gen_cases(rng, tier):
         defs, lens, first = gen_table(rng)
         secs = sections_of_defs(rng, defs, lens, first)
         pend.append((defs, lens, first, secs, lay_layout(rng, secs)))
+    # sections of 101, 150, 250, 1000 entries (bfchar, bfrange, codespacerange), through the extracted renderer ...
+    plan = big_plan(rng, tier)
+    big = {}
+    for kind, nb, per in plan:
+        defs, lens, first, _ = gen_big_table(rng, kind, nb)
+        secs = sections_chunked(rng, defs, lens, first, per, big_cs=nb if kind == 'cs' else 0)
+        big[len(pend)] = 'render-long-%s%s' % (kind, '' if per > 100 else '-chunked100')
+        pend.append((defs, lens, first, secs, lay_layout_big(rng, secs)))
     texts = extracted_render([(p[4], p[3]) for p in pend])
-    for (defs, lens, first, secs, lay), text in zip(pend, texts):
+    for pi, ((defs, lens, first, secs, lay), text) in enumerate(zip(pend, texts)):
         mine = L_render(lay, secs)
-        kind = 'render'
+        kind = big.get(pi, 'render')
         if text is None:
             text, kind = mine, 'render-noextract'     # the runner could not be asked: the model still compares the text with its own
         elif text != mine:
@@ -723,6 +858,14 @@ def gen_cases(rng, tier):
                              [(rng.choice(lens), rng.randrange(1 << (8 * rng.choice(lens))))], head='render',
                              tail=(sx_layout(lay), sx_secs(secs)))
         cases.append((line, {'kind': kind, 'nontrivial': len(defs) >= 2 and nt > 0}))
+    # ... and in the free style of the Python renderer
+    for kind, nb, per in plan:
+        defs, lens, first, _ = gen_big_table(rng, kind, nb)
+        secs = sections_chunked(rng, defs, lens, first, per, big_cs=nb if kind == 'cs' else 0)
+        stream = render_cmap(rng, defs, lens, first, secs=secs)
+        line, nt = make_case(rng, defs, lens, first, stream, True, [], [(rng.choice(lens), rng.randrange(1 << (8 * rng.choice(lens))))])
+        cases.append((line, {'kind': 'wf-long-%s%s' % (kind, '' if per > 100 else '-chunked100'), 'nontrivial': nt > 0,
+                             'entries': nb, 'per_section': per}))
     for k in range(n):
         defs, lens, first = gen_table(rng)
         r = rng.random()
@@ -755,7 +898,11 @@ SPEC = {
             'codespace placement; texts over mapped codes (expectation from the table) plus random bytes; a fifth of the '
             'well-formed cases (kind render) carry a random LAYOUT and the text written for it by the extracted renderer of '
             'Spec/CMapRender.v (the runner refuses a text that is not its own and re-checks the round-trip theorem on it; a '
-            'second rendering in Python must agree byte for byte); 20 kinds of '
+            'second rendering in Python must agree byte for byte); 21 + 21 (thorough 141 + 141) tables whose bfchar / bfrange / '
+            'codespacerange section holds 101, 150, 250, 1000 entries in ONE section (TN 5014 recommends at most 100 per section; the '
+            'grammar, the standard and C15_parse_render know no limit), and the same tables chunked at 100, at 101 and at random '
+            '(entries per section is a parameter of both renderers), probed at the first, 98th..104th, every 50th and the last '
+            'definitions; 20 kinds of '
             'damage compared by outcome class; non-trivial = at least 2 definitions and one text, or damaged; '
             'distinct = distinct case text',
     'extra_trusted': [
